@@ -1,2 +1,306 @@
+"""C06, last sentence - the hMETIS (.hgr) reader and the HIF reader against spec/derive/Persist.tla.
+
+Abstract files are produced by TLC (spec/mc/Gen_Hgr.tla, spec/mc/Gen_Hif.tla: BFS over all small files
+with the design invariants ParseRecoversListed / HifDesign, plus -simulate for longer ones), written to a
+scratch directory, read by the real readers, and the built object is judged by TLC
+(spec/trace/Trace_C06R.tla: object == ParseHgr(lines) / ReadHif(doc) up to a bijection of node names).
+`run(res, tier, seed)` only adds to the shared Result; checks/c06.py finishes it.
+"""
+import concurrent.futures as cf
+import json
+import os
+import random
+import shutil
+
+from harness import cases as K
+from harness import tlc
+from harness.binding import Binding, LABEL_FAMILIES, quiet
+
+FMTS = {2, 0, 1, 10, 11}          # 2 = header without a fmt token (Gen_Hgr.tla)
+
+
+# ---------------------------------------------------------------------------------------------
+# generation on the spec side
+def _gen(module, consts, invariant, depth, simulate, seed, workers):
+    cfg = tlc.cfg_text(consts, invariants=[invariant], constraints=["Emit"])
+    if simulate:
+        r = tlc.run(module, cfg, workers=1, simulate=simulate, depth=depth, seed=seed, timeout=900)
+        if r["rc"] != 0:
+            raise tlc.TLCError("%s -simulate failed:\n%s" % (module, tlc.error_excerpt(r["out"])))
+        st = {"generated": 0, "distinct": 0}
+    else:
+        r = tlc.run(module, cfg, workers=workers, timeout=1800)
+        if not tlc.ok_exploration(r):
+            raise tlc.TLCError("%s exploration failed:\n%s" % (module, tlc.error_excerpt(r["out"])))
+        st = tlc.stats(r["out"])
+    docs = sorted(set(tlc.printed_strings(r["out"], "{")))
+    if not docs:
+        raise tlc.TLCError("%s produced no file:\n%s" % (module, tlc.error_excerpt(r["out"])))
+    return [json.loads(s) for s in docs], st, r["wall"]
+
+
+def gen_hgr(nn, depth, maxw, simulate=None, seed=1, workers=4):
+    return _gen("Gen_Hgr", {"Kind": "hg", "NN": nn, "Fmts": FMTS, "MaxW": maxw, "Depth": depth,
+                            "Balanced": bool(simulate)}, "ParseRecoversListed", depth, simulate, seed, workers)
+
+
+def gen_hif(nn, ne, depth, variants=(0, 1, 2), types=("absent", "undirected", "asc"), simulate=None, seed=1, workers=4):
+    return _gen("Gen_Hif", {"Kind": "hg", "NodeNames": set(range(1, nn + 1)), "EdgeNames": set(range(1, ne + 1)),
+                            "Variants": set(variants), "Depth": depth, "Types": set(types)},
+                "HifDesign", depth, simulate, seed, workers)
+
+
+# ---------------------------------------------------------------------------------------------
+# hMETIS: rendering, reading, observing
+def render_hgr(lines, rng):
+    """text of the file; the header is written with single spaces, the other token lines with 1-2 spaces
+    and optional surrounding white space (hMETIS: integers separated by spaces)"""
+    out, header_done = [], False
+    for l in lines:
+        if l["k"] == "t":
+            toks = [str(x) for x in l["t"]]
+            if not header_done:
+                header_done = True
+                out.append(" ".join(toks) + rng.choice(["", " "]))
+            else:
+                s = toks[0]
+                for t in toks[1:]:
+                    s += rng.choice([" ", " ", "  "]) + t
+                out.append(rng.choice(["", "", " "]) + s + rng.choice(["", "", " "]))
+        else:
+            out.append(l["s"])
+    return "\n".join(out) + rng.choice(["\n", "\n", ""])
+
+
+def hgr_case(d, path, rng):
+    from hypergraphx.readwrite.load import load_hypergraph
+    text = render_hgr(d["lines"], rng)
+    with open(path, "w") as f:
+        f.write(text)
+    header = next(l["t"] for l in d["lines"] if l["k"] == "t")
+    b = Binding("hg", list(range(1, header[1] + 1)), rng)
+    c = {"kind": "hgr", "lines": d["lines"], "ok": True}
+    try:
+        with quiet():
+            obj = load_hypergraph(path)
+        c["st"] = b.state(obj)
+        err = ""
+    except Exception as ex:
+        c["ok"] = False
+        c["st"] = {"nodes": [], "edges": [], "nmd": [], "hmd": {}, "wtd": False, "err": ""}
+        err = "%s: %s" % (type(ex).__name__, ex)
+    return c, {"text": text, "error": err}
+
+
+# ---------------------------------------------------------------------------------------------
+# HIF: concrete documents, reading, observing
+EDGE_FAMILIES = {
+    "ident": lambda m, nl: list(range(1, m + 1)),
+    "str": lambda m, nl: ["e%d" % i for i in range(1, m + 1)],
+    "as_nodes": lambda m, nl: list(nl[:m]) if len(nl) >= m else ["e%d" % i for i in range(1, m + 1)],
+}
+
+
+def _expand(kind, rec, nl, el):
+    """the concrete JSON record of a generated record (variant v)"""
+    v = rec["v"]
+    out = {}
+    if "edge" in rec:
+        out["edge"] = el[rec["edge"] - 1]
+    if "node" in rec:
+        out["node"] = nl[rec["node"] - 1]
+    ident = "%s%s" % (rec.get("edge", ""), ("-%s" % rec["node"]) if "node" in rec else "")
+    if v == 1:
+        out["weight"] = 2 if kind != "edges" else 3
+        out["attrs"] = {"tag": "%s:%s" % (kind[0], ident), "k": 1}
+    elif v == 2:
+        out["attrs"] = {} if kind != "edges" else {"nested": {"a": [1, 2]}}
+        if kind == "incidences":
+            out["weight"] = 1
+    return out
+
+
+def _tok(rec, ninv, einv):
+    """a record as one opaque value, node / edge names replaced by the abstract ids"""
+    if not isinstance(rec, dict):
+        return "!not-a-record:%s" % type(rec).__name__
+    r = dict(rec)
+    for fld, inv in (("node", ninv), ("edge", einv)):
+        if fld in r:
+            try:
+                r[fld] = ["id", inv.get(r[fld], -1)]
+            except TypeError:
+                r[fld] = ["id", -1]
+    try:
+        return json.dumps(r, sort_keys=True, default=str)
+    except Exception:
+        return "!unserialisable"
+
+
+def hif_case(d, path, nfam, efam, rng):
+    from hypergraphx.readwrite.hif import read_hif
+    nn = max([r["node"] for r in d["nodes"]] + [r["node"] for r in d["incidences"]] + [1])
+    ne = max([r["edge"] for r in d["edges"]] + [r["edge"] for r in d["incidences"]] + [1])
+    nl = LABEL_FAMILIES[nfam](max(nn, 4))
+    el = EDGE_FAMILIES[efam](ne, nl)
+    ninv = {l: i + 1 for i, l in enumerate(nl)}
+    einv = {l: i + 1 for i, l in enumerate(el)}
+    conc = {}
+    if d["ty"] != "absent":
+        conc[rng.choice(["network-type", "type"])] = d["ty"]
+    if d["md"]:
+        conc["metadata"] = {"name": "generated", "n": 1}
+    doc = {}
+    for kind in ("nodes", "edges", "incidences"):
+        conc[kind] = [_expand(kind, r, nl, el) for r in d[kind]]
+        doc[kind] = [dict({k: v for k, v in r.items() if k != "v"}, tok=_tok(x, ninv, einv))
+                     for r, x in zip(d[kind], conc[kind])]
+    with open(path, "w") as f:
+        json.dump(conc, f)
+    c = {"kind": "hif", "doc": doc, "ok": True, "built": {"nodes": [], "edges": [], "nmd": [], "imd": []}}
+    err = ""
+    try:
+        with quiet():
+            H = read_hif(path)
+            nodes = list(H.get_nodes())
+            ids = {}
+            for n in nodes:
+                ids.setdefault(n, len(ids) + 1)
+            built = c["built"]
+            built["nodes"] = [ids[n] for n in nodes]
+            for n in nodes:
+                built["nmd"].append([ids[n], _tok(H.get_node_metadata(n), ninv, einv)])
+            seen = set()
+            for e in list(H.get_edges()):
+                built["edges"].append({"nodes": [ids.get(x, -1) for x in e], "tok": _tok(H.get_edge_metadata(e), ninv, einv)})
+                for x in e:
+                    try:
+                        m = H.get_incidence_metadata(e, x)
+                    except Exception:
+                        continue
+                    seen.add((tuple(e), x))
+                    built["imd"].append({"e": [ids.get(y, -1) for y in e], "n": ids.get(x, -1), "tok": _tok(m, ninv, einv)})
+            try:
+                for (e, x), m in H.get_all_incidences_metadata().items():
+                    if (tuple(e), x) not in seen:
+                        built["imd"].append({"e": [ids.get(y, -1) for y in e], "n": ids.get(x, -1), "tok": _tok(m, ninv, einv)})
+            except Exception:
+                pass
+    except Exception as ex:
+        c["ok"] = False
+        c["built"] = {"nodes": [], "edges": [], "nmd": [], "imd": []}
+        err = "%s: %s" % (type(ex).__name__, ex)
+    return c, {"document": conc, "node_labels": nl, "edge_labels": el, "error": err}
+
+
+# ---------------------------------------------------------------------------------------------
 def run(res, tier, seed):
-    pass
+    rng = random.Random(seed * 104729 + 6)
+    quick = tier == "quick"
+    jobs = {
+        "hgr_bfs": lambda: gen_hgr(2, 3, 2),
+        "hgr_sim": lambda: gen_hgr(4, 9 if quick else 11, 3, simulate=12 if quick else 250, seed=seed + 11),
+        "hif_bfs": lambda: gen_hif(2, 2, 3, variants=(0, 1), types=("absent", "asc")),
+        "hif_sim": lambda: gen_hif(4, 3, 10 if quick else 12, simulate=12 if quick else 250, seed=seed + 13),
+    }
+    if not quick:
+        jobs["hgr_bfs3"] = lambda: gen_hgr(3, 3, 1)
+        jobs["hgr_sim3"] = lambda: gen_hgr(3, 6, 2, simulate=150, seed=seed + 17)
+        jobs["hif_bfs3"] = lambda: gen_hif(3, 2, 3, variants=(0, 1), types=("undirected",))
+        jobs["hif_sim2"] = lambda: gen_hif(3, 3, 7, simulate=150, seed=seed + 19)
+    got = {}
+    with cf.ThreadPoolExecutor(max_workers=4) as ex:
+        futs = {k: ex.submit(f) for k, f in jobs.items()}
+        for k, f in futs.items():
+            got[k] = f.result()
+    states = trans = 0
+    for k, (docs, st, wall) in got.items():
+        if "bfs" in k:
+            states += st["distinct"]
+            trans += st["generated"]
+            res.coverage.setdefault("explorations", []).append(
+                {"module": "Gen_Hgr" if k.startswith("hgr") else "Gen_Hif", "job": k, "states": st["distinct"],
+                 "transitions": st["generated"], "files_emitted": len(docs), "wall_s": round(wall, 1)})
+    res.cov(states=states, transitions=trans)
+    res.coverage.setdefault("invariants", [])
+    for i in ("ParseRecoversListed", "HifDesign"):
+        if i not in res.coverage["invariants"]:
+            res.coverage["invariants"].append(i)
+
+    cap = 300 if quick else 12000
+    wd = tlc.workdir("c06r")
+    cases, info = [], []
+    try:
+        n = 0
+        for k in sorted(got):
+            docs = got[k][0]
+            if len(docs) > cap:
+                docs = rng.sample(docs, cap)
+            for d in docs:
+                n += 1
+                if k.startswith("hgr"):
+                    c, more = hgr_case(d, os.path.join(wd, "f%d.hgr" % n), rng)
+                else:
+                    nfam = ("ident", "sparse", "str", "zero")[n % 4]
+                    efam = ("ident", "str", "as_nodes")[(n // 4) % 3]
+                    c, more = hif_case(d, os.path.join(wd, "f%d.hif.json" % n), nfam, efam, rng)
+                    more["families"] = [nfam, efam]
+                more["origin"] = k
+                cases.append(c)
+                info.append(more)
+    finally:
+        shutil.rmtree(wd, ignore_errors=True)
+
+    v = K.run_cases("Trace_C06R", cases, {"Kind": "hg"}, procs=12)
+    for idx, failed in v["rejects"]:
+        c, more = cases[idx], info[idx]
+        if "hgr_file_is_valid_and_covered" in failed or "hif_document_is_covered" in failed:
+            raise tlc.TLCError("generated file outside the covered inputs: %s" % json.dumps(c)[:600])
+        if c["kind"] == "hgr":
+            header = next(l["t"] for l in c["lines"] if l["k"] == "t")
+            fmt = header[2] if len(header) == 3 else None
+            res.reject({"part": "hgr_reader", "clauses": failed, "fmt": fmt},
+                       "load_hypergraph(.hgr) does not build ParseHgr of the file (%s; fmt %s)%s: %r"
+                       % (",".join(failed), fmt, (" [" + more["error"] + "]") if more["error"] else "", more["text"]),
+                       {"file_text": more["text"], "lines": c["lines"], "built": c["st"], "error": more["error"]})
+        else:
+            res.reject({"part": "hif_reader", "clauses": failed},
+                       "read_hif does not build ReadHif of the document (%s)%s: %s"
+                       % (",".join(failed), (" [" + more["error"] + "]") if more["error"] else "", json.dumps(more["document"])),
+                       {"document": more["document"], "abstract": c["doc"], "built": c["built"], "error": more["error"],
+                        "node_labels": more["node_labels"], "edge_labels": more["edge_labels"]})
+
+    hgr = [c for c in cases if c["kind"] == "hgr"]
+    hif = [c for c in cases if c["kind"] == "hif"]
+
+    def fmt_of(c):
+        h = next(l["t"] for l in c["lines"] if l["k"] == "t")
+        return str(h[2]) if len(h) == 3 else "absent"
+
+    def coincide(c):
+        sets = {}
+        for r in c["doc"]["incidences"]:
+            sets.setdefault(r["edge"], set()).add(r["node"])
+        fs = [frozenset(s) for s in sets.values()]
+        return len(set(fs)) < len(fs)
+
+    res.cov(traces_validated_against_impl=len(cases), validator_states=v["states"],
+            reader_hgr_files=len(hgr), reader_hif_documents=len(hif),
+            reader_hgr_weighted=sum(1 for c in hgr if fmt_of(c) in ("1", "11")),
+            reader_hgr_with_comment_or_blank=sum(1 for c in hgr if any(l["k"] != "t" for l in c["lines"])),
+            reader_hgr_repeated_hyperedge=sum(1 for c in hgr if len(c["st"]["edges"]) < next(l["t"] for l in c["lines"] if l["k"] == "t")[0]),
+            reader_hif_coinciding_edge_names=sum(1 for c in hif if coincide(c)),
+            reader_hif_edges_without_record=sum(1 for c in hif if {r["edge"] for r in c["doc"]["incidences"]} - {r["edge"] for r in c["doc"]["edges"]}),
+            reader_hif_records_without_incidence=sum(1 for c in hif if {r["edge"] for r in c["doc"]["edges"]} - {r["edge"] for r in c["doc"]["incidences"]}))
+    res.coverage["reader_hgr_fmt_histogram"] = {f: sum(1 for c in hgr if fmt_of(c) == f) for f in ("absent", "0", "1", "10", "11")}
+    pick = max(range(len(cases)), key=lambda i: (cases[i]["kind"] == "hgr", len(cases[i].get("lines", []))))
+    res.sample({"reader": "hgr", "file_text": info[pick]["text"], "built_edges": cases[pick]["st"]["edges"]})
+    pick = max(range(len(cases)), key=lambda i: (cases[i]["kind"] == "hif", len(cases[i].get("doc", {}).get("incidences", []))))
+    res.sample({"reader": "hif", "document": info[pick]["document"], "built": cases[pick]["built"]})
+    res.assume(".hgr: header written with single spaces, other token lines with 1-2 spaces; nodes 1..N; every line of a "
+               "hyperedge lists distinct nodes; weighted files never list the same hyperedge twice (not covered); only "
+               "hyperedges and weights are compared (isolated nodes of the header are not promised)",
+               "HIF: documents always carry the three arrays nodes/edges/incidences, every (edge,node) pair, node name "
+               "and edge name described once; the object is compared with ReadHif up to a bijection of node names "
+               "(the reader renames nodes); records are compared as opaque canonical JSON values; when two edge names "
+               "have the same incidence set either record may be kept; write_hif is not covered")
